@@ -373,11 +373,8 @@ class Raw:
             if p.a.__class__.__name__ in ('JoinedStr', 'TemplateStr'):
                 in_fstr = True
             p = p.parent
-        if in_fstr and '\n' in text:   # multi-line trivia inside a replacement field: not judged
-            self.counts['skipped'] += 1
-            return
         self.ev += 1
-        key = f'offset:{self.name}:({ln},{c1},{c2}):{text!r}'
+        key = f'offset{"[fstr-ml]" if in_fstr and chr(10) in text else ""}:{self.name}:({ln},{c1},{c2}):{text!r}'
         desc = f'{node.a.__class__.__name__}.put_src({text!r}, {ln}, {c1}, {ln}, {c2}, "offset")'
         src0, d0 = root.src, dump(root.a)
         if 'C02' in self.props:
